@@ -6,6 +6,7 @@ package main
 import (
 	"fmt"
 	"go/types"
+	"regexp"
 	"strings"
 
 	"golang.org/x/tools/go/ssa"
@@ -261,3 +262,96 @@ func (x *Exec) checkDecreases(s *State, fc *FuncContract, env map[string]Val, si
 }
 
 var _ = strings.TrimSpace
+
+// ---------- lock discipline ----------
+
+var reHeapVer = regexp.MustCompile(`((?:F|C|G)\$[^ !()]+)![0-9]+`)
+
+// canonID: a lock's identity. Lock-holding fields are assigned once at construction, so the heap
+// version from which the lock pointer was read is irrelevant.
+func canonID(t *Term) string {
+	for i := 0; i < 6 && t.Kind == kVar; i++ {
+		d, ok := defOf[t.Op]
+		if !ok {
+			break
+		}
+		t = d
+	}
+	return reHeapVer.ReplaceAllString(t.String(), "$1")
+}
+
+// checkGuard: a field declared `guarded T.f by mu` may be read with mu held (R or W) and written
+// only with mu held for writing; objects under construction in this activation are exempt.
+func (x *Exec) checkGuard(s *State, styp types.Type, st *types.Struct, field int, ref *Term, write bool, site string) {
+	if len(x.eng.cs.Guarded) == 0 {
+		return
+	}
+	n, ok := styp.(*types.Named)
+	if !ok || n.Obj().Pkg() == nil {
+		return
+	}
+	lockField, ok := x.eng.cs.Guarded[n.Obj().Pkg().Path()+"."+n.Obj().Name()+"."+st.Field(field).Name()]
+	if !ok {
+		return
+	}
+	if strings.HasPrefix(ref.Op, "new$") {
+		return // object allocated by this activation: not yet shared
+	}
+	li := -1
+	for i := 0; i < st.NumFields(); i++ {
+		if st.Field(i).Name() == lockField {
+			li = i
+		}
+	}
+	if li < 0 {
+		return
+	}
+	lt := st.Field(li).Type()
+	var id string
+	if _, isPtr := lt.Underlying().(*types.Pointer); isPtr {
+		h := x.heapGet(s, x.fieldKey(styp, st, li), SArr(SInt, x.sortOf(lt)))
+		id = canonID(Select(h, ref))
+	} else {
+		id = fmt.Sprintf("%s.%s", canonID(ref), lockField)
+	}
+	held := s.locks[id]
+	kind := "read"
+	okHeld := held == "R" || held == "W"
+	if write {
+		kind = "write"
+		okHeld = held == "W"
+	}
+	name := fmt.Sprintf("guard:%s.%s:%s@%s", n.Obj().Name(), st.Field(field).Name(), kind, site)
+	if okHeld {
+		x.emit(s, "lock", name, TTrue, "guarded access")
+		return
+	}
+	x.emit(s, "lock", name, TFalse, fmt.Sprintf("%s of %s.%s without holding %s (held: %q)", kind, n.Obj().Name(), st.Field(field).Name(), lockField, held))
+}
+
+// lockIDOfExpr evaluates a lock expression of a `holds` clause.
+func (x *Exec) lockIDOfExpr(s *State, e *Expr, names map[string]Val, pkg *types.Package) (string, error) {
+	env := &SpecEnv{x: x, s: s, names: names, fnPkg: pkg}
+	// a mutex stored by value is addressed as base.field
+	if e.Kind == eField {
+		base, err := env.eval(e.Args[0])
+		if err == nil && base.GoT != nil {
+			if p, ok := base.GoT.Underlying().(*types.Pointer); ok {
+				if st, ok := p.Elem().Underlying().(*types.Struct); ok {
+					for i := 0; i < st.NumFields(); i++ {
+						if st.Field(i).Name() == e.Name {
+							if _, isPtr := st.Field(i).Type().Underlying().(*types.Pointer); !isPtr {
+								return fmt.Sprintf("%s.%s", canonID(base.T), e.Name), nil
+							}
+						}
+					}
+				}
+			}
+		}
+	}
+	v, err := env.eval(e)
+	if err != nil {
+		return "", err
+	}
+	return canonID(v.T), nil
+}
